@@ -166,6 +166,16 @@ CLAIMED.update({
                      "widths from one value per line to all on one line, SPACE/TAB/COMMA with and without padding."),
 })
 
+CLAIMED.update({
+    "C12": dict(cat="exploration", ref="DESIGN.md 3 (C12)",
+                technique="deterministic simulation of save/load runs: the same input loaded twice and written with a seeded PAIR "
+                          "of writer configurations (equal numeric precision) into the simulated file system, both outputs read "
+                          "back through simulated channels; canon equality apart from the VERS and WRAP items",
+                text="Example corpus, generated documents and header mutations x pairs over version 1.2/2.0, wrap, widths, spacers, "
+                     "data width, header style: the content read back must not depend on the configuration; LAS 3.0 inputs, "
+                     "quoted text cells, unusable NULL values and ~Well fields containing colons are known findings."),
+})
+
 NOT_APPLICABLE = {
     "C04": "read_header_line is a pure function of one already-delivered line (regex cascade): no stream position, "
            "history, fault or interleaving can influence it, so deterministic simulation adds nothing (DESIGN.md 4)",
